@@ -46,4 +46,32 @@ Definition cumulative_t (temporal : bool) (op : cumop) (skip_na : bool) (gk : li
 (* numeric (non-temporal) columns *)
 Definition cumulative := cumulative_t false.
 
+(* ---- _cumulative_reduce as written, with its arrays ----
+   target (the output, pre-filled with the initial value), group_last_seen, group_count.  The running value of a
+   group is READ BACK from the output array at the group's previous accepted row; before the first one the code reads
+   target[-1] — Python's last cell, which is still the fill value because rows are written in order.  Masked rows
+   copy the value without becoming the "last seen" row.  The caller then overwrites null-key rows with na_rep. *)
+Record astate := { a_target : list V; a_last : list Z; a_count : list Z }.
+
+Definition array_step (rf : @reducer V) (init : V) (n : nat) (st : astate) (ir : nat * (Z * (V * bool))) : astate :=
+  let '(i, (k, (v, sel))) := ir in
+  if k <? 0 then st
+  else
+    let kk := Z.to_nat k in
+    let ls := get (-1) (a_last st) kk in
+    let at_ls := if ls <? 0 then get init (a_target st) (n - 1) else get init (a_target st) (Z.to_nat ls) in
+    if negb sel then
+      (if 0 <=? ls then {| a_target := upd (a_target st) i at_ls; a_last := a_last st; a_count := a_count st |} else st)
+    else
+      let ac := rf at_ls v (get 0 (a_count st) kk) in
+      {| a_target := upd (a_target st) i (fst ac); a_last := upd (a_last st) kk (Z.of_nat i); a_count := upd (a_count st) kk (snd ac) |}.
+
+Definition cumulative_array (temporal : bool) (op : cumop) (skip_na : bool) (gk : list Z) (vals : list V)
+    (ngroups : nat) (mask : option (list bool)) : list V :=
+  let rows := mk_rows gk vals mask in
+  let n := length rows in
+  let st := fold_left (array_step (reducer_of o (cum_reducer temporal op skip_na)) (cum_init op) n) (combine (seq 0 n) rows)
+              {| a_target := repeat (cum_init op) n; a_last := repeat (-1) ngroups; a_count := repeat 0 ngroups |} in
+  map (fun p : V * (Z * (V * bool)) => if fst (snd p) <? 0 then cum_na op else fst p) (combine (a_target st) rows).
+
 End Cum.
